@@ -1268,3 +1268,57 @@ def rule_scanacc(ctx) -> RuleResult:
 def blueprint_vars_of(f):
     from ..astutil import blueprint_vars
     return blueprint_vars(f)
+
+
+# ---------------------------------------------------------------------------------------------
+# R-COMBINEBYPASS (C02, C12): the grouped combine hands concatenated intermediates on unreduced only for reasons of *shape*.
+# _grouped_combine concatenates the blocks' intermediates and labels and reduces them again by label.  The second reduction also removes the
+# placeholder label a block reports when all its labels are missing, and merges labels that recur.  Skipping it is sound when there is
+# nothing to merge by construction (a single element along the reduced axis); a skip decided from the label *values* ("no label recurs")
+# keeps the placeholders: a spurious NaN label with a made-up value appears among lazily discovered groups.
+def rule_combinebypass(ctx) -> RuleResult:
+    res = RuleResult("R-COMBINEBYPASS", "the grouped combine skips its second reduction only under shape conditions", min_instances=2)
+    from .codes import _local_closure
+    from ..astutil import guard_facts
+    f = ctx.prog.func("core._grouped_combine")
+    pm = parents_map(f.node)
+    sites = []
+    for n in walk_own(f.node):
+        if isinstance(n, ast.Call) and isinstance(n.func, ast.Attribute) and n.func.attr == "append" and "intermediates" in norm(n.func.value) and n.args:
+            sites.append((n, n.args[0]))
+        if isinstance(n, ast.Dict):
+            for k, v in zip(n.keys, n.values):
+                if isinstance(k, ast.Constant) and k.value == "intermediates" and not (isinstance(v, (ast.List, ast.Tuple)) and not v.elts):
+                    sites.append((n, v))
+    if not sites:
+        raise AnalysisError("_grouped_combine: no store of combined intermediates found (anchor)")
+    for node, v in sites:
+        clo = _local_closure(f, v, limit=3)
+        reduced = any(isinstance(x, ast.Call) and norm(x.func) in ("chunk_reduce", "chunk_argreduce") for e in clo for x in ast.walk(e)) \
+            or any(isinstance(x, ast.Name) and x.id.startswith("_results") for x in ast.walk(v)) or "_results" in norm(v)
+        empty = isinstance(v, ast.Call) and norm(v.func) in ("np.empty", "np.zeros")
+        if reduced or empty:
+            res.inst(f"_grouped_combine: intermediates <- {norm(v)[:50]}: {'reduced by label' if reduced else 'empty'}", f"site|{node.lineno}")
+            continue
+        # a bypass: which conditions lead here?
+        facts = guard_facts(node, pm)
+        conds = []
+        for at, pol in facts:
+            if not pol:
+                continue
+            try:
+                e = ast.parse(at, mode="eval").body
+            except SyntaxError:
+                continue
+            conds += _local_closure(f, e, limit=3)
+        value_dep = sorted({norm(x.func) for e in conds for x in ast.walk(e) if isinstance(x, ast.Call)
+                            and norm(x.func) in ("_unique", "np.unique", "pd.unique", "isnull", "np.isnan", "len", "np.any", "np.all", "set")
+                            and not all(isinstance(y, ast.Attribute) and y.attr in ("shape", "ndim") for y in x.args)})
+        shape_only = bool(conds) and not value_dep and any(".shape" in norm(e) or ".ndim" in norm(e) for e in conds)
+        res.inst(f"_grouped_combine: intermediates <- {norm(v)[:40]} (unreduced) under {[norm(e)[:40] for e in conds][:2]}: shape-only condition: {shape_only}", f"site|{node.lineno}")
+        if not shape_only:
+            res.report("core._grouped_combine|value-dependent-bypass", f.where(node), f.qualname,
+                       f"concatenated intermediates are handed on without the second reduction under a condition computed from label values "
+                       f"({', '.join(value_dep) or 'no shape test'}): the placeholder label of an all-missing block is not removed and recurring labels are "
+                       "not merged by construction, so lazily discovered groups can contain a spurious NaN label with a made-up value")
+    return res
